@@ -760,3 +760,8 @@ async fn test_netinfo_startup() {
     let _ = SharedNetInfo::new().await;
     println!("new complete");
 }
+
+#[cfg(feature = "isomer_erbium_verif")]
+mod isomer_erbium_verif {
+    include!(concat!(env!("ISOMER_ERBIUM_VERIF_DIR"), "/net_netinfo.rs"));
+}
